@@ -1,0 +1,12 @@
+//go:build !verif
+
+package client
+
+import "sync"
+
+// The lock types of the client's shared structures. They are plain sync.RWMutex; the build tag "verif"
+// replaces them with wrappers that report every acquisition and release to a lock-order checker.
+type sessionsMutex = sync.RWMutex
+type sessionMutex = sync.RWMutex
+type cacheMutex = sync.RWMutex
+type settingsMutex = sync.RWMutex
